@@ -191,6 +191,220 @@ theorem mem_erase {α : Type} {m : SMap α} {k : Nat} {p : Nat × α} (h : p ∈
       · exact List.mem_cons_of_mem _ (ih h)
 
 
+/-! ### value maps -/
+
+/-- a table with its values mapped (`Bytes` ↦ `List Nat`, model entry ↦ generated entry) -/
+def mapVals {α β : Type} (f : α → β) (m : SMap α) : RustSem.Map β := m.map fun p => (p.1, f p.2)
+
+theorem find_mapVals {α β : Type} (f : α → β) (m : SMap α) (k : Nat) :
+    RustSem.Map.find? (mapVals f m) k = (SMap.find? m k).map f := by
+  induction m with
+  | nil => rfl
+  | cons p r ih =>
+    obtain ⟨k', v⟩ := p
+    simp only [mapVals, List.map_cons, RustSem.Map.find?, SMap.find?] at ih ⊢
+    by_cases h : k' = k
+    · subst h; simp
+    · simp [h, ih]
+
+theorem contains_mapVals {α β : Type} (f : α → β) (m : SMap α) (k : Nat) :
+    RustSem.Map.contains_key (mapVals f m) k = SMap.contains m k := by
+  simp [RustSem.Map.contains_key, SMap.contains, find_mapVals]
+
+theorem insert_mapVals {α β : Type} (f : α → β) (m : SMap α) (k : Nat) (v : α) :
+    RustSem.Map.insert (mapVals f m) k (f v) = mapVals f (SMap.insert m k v) := by
+  induction m with
+  | nil => rfl
+  | cons p r ih =>
+    obtain ⟨k', v'⟩ := p
+    simp only [mapVals, List.map_cons, RustSem.Map.insert, SMap.insert] at ih ⊢
+    by_cases h1 : k < k'
+    · simp [h1]
+    · by_cases h2 : k = k'
+      · simp [h2]
+      · simp [h1, h2, ih]
+
+theorem remove_mapVals {α β : Type} (f : α → β) (m : SMap α) (k : Nat) :
+    RustSem.Map.remove (mapVals f m) k = mapVals f (SMap.erase m k) := by
+  induction m with
+  | nil => rfl
+  | cons p r ih =>
+    obtain ⟨k', v⟩ := p
+    simp only [mapVals, List.map_cons, RustSem.Map.remove, SMap.erase] at ih ⊢
+    by_cases h : k' = k
+    · simp [h]
+    · simp [h, ih]
+
+/-- removing an unbound key changes nothing -/
+theorem erase_of_find_none {α : Type} (m : SMap α) (k : Nat) (h : SMap.find? m k = none) : SMap.erase m k = m := by
+  induction m with
+  | nil => rfl
+  | cons p r ih =>
+    obtain ⟨k', v⟩ := p
+    simp only [SMap.find?] at h
+    simp only [SMap.erase]
+    by_cases hk : k' = k
+    · simp [hk] at h
+    · rw [if_neg hk] at h; rw [if_neg hk, ih h]
+
+/-! ### sets -/
+
+/-- the `BTreeSet` holding the elements of a list -/
+def setOf (l : List Nat) : RustSem.Set := l.foldr (fun x acc => RustSem.Set.insert acc x) []
+
+/-- strictly ascending -/
+def SSorted (s : RustSem.Set) : Prop := s.Pairwise (· < ·)
+
+theorem mem_set_insert (s : RustSem.Set) (x y : Nat) : y ∈ RustSem.Set.insert s x ↔ y = x ∨ y ∈ s := by
+  induction s with
+  | nil => simp [RustSem.Set.insert]
+  | cons z t ih =>
+    simp only [RustSem.Set.insert]
+    split
+    · simp
+    · split
+      · rename_i h; subst h; simp
+      · simp only [List.mem_cons, ih]
+        constructor
+        · rintro (h | h | h) <;> simp [h]
+        · rintro (h | h | h) <;> simp [h]
+
+theorem sorted_set_insert (s : RustSem.Set) (x : Nat) (hs : SSorted s) : SSorted (RustSem.Set.insert s x) := by
+  induction s with
+  | nil => simp [RustSem.Set.insert, SSorted]
+  | cons z t ih =>
+    simp only [SSorted, List.pairwise_cons] at hs
+    simp only [RustSem.Set.insert]
+    split
+    · rename_i h
+      simp only [SSorted, List.pairwise_cons, List.mem_cons]
+      refine ⟨?_, hs⟩
+      rintro a (rfl | ha)
+      · exact h
+      · exact Nat.lt_trans h (hs.1 a ha)
+    · split
+      · simpa [SSorted] using hs
+      · rename_i h1 h2
+        simp only [SSorted, List.pairwise_cons]
+        refine ⟨?_, ih hs.2⟩
+        intro a ha
+        rcases (mem_set_insert t x a).mp ha with rfl | ha
+        · omega
+        · exact hs.1 a ha
+
+theorem sorted_setOf (l : List Nat) : SSorted (setOf l) := by
+  induction l with
+  | nil => simp [setOf, SSorted]
+  | cons x r ih => exact sorted_set_insert _ _ ih
+
+theorem mem_setOf (l : List Nat) (y : Nat) : y ∈ setOf l ↔ y ∈ l := by
+  induction l with
+  | nil => simp [setOf]
+  | cons x r ih =>
+    show y ∈ RustSem.Set.insert (setOf r) x ↔ _
+    rw [mem_set_insert, ih]; simp
+
+theorem contains_setOf (l : List Nat) (x : Nat) : RustSem.Set.contains (setOf l) x = l.contains x := by
+  have h := mem_setOf l x
+  simp only [RustSem.Set.contains]
+  cases h1 : List.elem x (setOf l) <;> cases h2 : l.contains x <;> simp_all
+
+theorem set_insert_lt_all (t : RustSem.Set) (x : Nat) (h : ∀ z ∈ t, x < z) : RustSem.Set.insert t x = x :: t := by
+  cases t with
+  | nil => rfl
+  | cons z r => simp [RustSem.Set.insert, h z (by simp)]
+
+theorem set_remove_insert_self (s : RustSem.Set) (x : Nat) (h : x ∉ s) :
+    RustSem.Set.remove (RustSem.Set.insert s x) x = s := by
+  induction s with
+  | nil => simp [RustSem.Set.insert, RustSem.Set.remove]
+  | cons z t ih =>
+    simp only [List.mem_cons, not_or] at h
+    simp only [RustSem.Set.insert]
+    split
+    · simp [RustSem.Set.remove]
+    · split
+      · rename_i h2; exact absurd h2 h.1
+      · simp only [RustSem.Set.remove]
+        rw [if_neg (fun e => h.1 e.symm), ih h.2]
+
+theorem set_remove_insert_ne (s : RustSem.Set) (x o : Nat) (hs : SSorted s) (hne : x ≠ o) :
+    RustSem.Set.remove (RustSem.Set.insert s x) o = RustSem.Set.insert (RustSem.Set.remove s o) x := by
+  induction s with
+  | nil => simp [RustSem.Set.insert, RustSem.Set.remove, hne]
+  | cons z t ih =>
+    simp only [SSorted, List.pairwise_cons] at hs
+    simp only [RustSem.Set.insert]
+    split
+    · rename_i hlt
+      simp only [RustSem.Set.remove, if_neg hne]
+      by_cases hz : z = o
+      · rw [if_pos hz, set_insert_lt_all t x (fun a ha => Nat.lt_trans hlt (hs.1 a ha))]
+      · rw [if_neg hz]; simp [RustSem.Set.insert, hlt]
+    · split
+      · rename_i h1 h2
+        subst h2
+        simp only [RustSem.Set.remove, if_neg hne]
+        simp [RustSem.Set.insert]
+      · rename_i h1 h2
+        simp only [RustSem.Set.remove]
+        by_cases hz : z = o
+        · rw [if_pos hz, if_pos hz]
+        · rw [if_neg hz, if_neg hz, ih hs.2]
+          simp [RustSem.Set.insert, h1, h2]
+
+theorem remove_setOf (l : List Nat) (o : Nat) (hn : l.Nodup) :
+    RustSem.Set.remove (setOf l) o = setOf (l.erase o) := by
+  induction l with
+  | nil => rfl
+  | cons x r ih =>
+    simp only [List.nodup_cons] at hn
+    show RustSem.Set.remove (RustSem.Set.insert (setOf r) x) o = _
+    by_cases hx : x = o
+    · subst hx
+      rw [List.erase_cons_head, set_remove_insert_self _ _ (fun h => hn.1 ((mem_setOf r x).mp h))]
+    · rw [List.erase_cons_tail (by simpa using hx), set_remove_insert_ne _ _ _ (sorted_setOf r) hx, ih hn.2]
+      rfl
+
+theorem length_set_insert_le (s : RustSem.Set) (x : Nat) : (RustSem.Set.insert s x).length ≤ s.length + 1 := by
+  induction s with
+  | nil => simp [RustSem.Set.insert]
+  | cons z t ih =>
+    simp only [RustSem.Set.insert]
+    split
+    · simp
+    · split
+      · simp
+      · simp only [List.length_cons]; omega
+
+theorem length_setOf_le (l : List Nat) : (setOf l).length ≤ l.length := by
+  induction l with
+  | nil => simp [setOf]
+  | cons x r ih =>
+    have := length_set_insert_le (setOf r) x
+    show (RustSem.Set.insert (setOf r) x).length ≤ _
+    simp only [List.length_cons]; omega
+
+theorem length_set_insert_new (s : RustSem.Set) (x : Nat) (h : x ∉ s) : (RustSem.Set.insert s x).length = s.length + 1 := by
+  induction s with
+  | nil => simp [RustSem.Set.insert]
+  | cons z t ih =>
+    simp only [List.mem_cons, not_or] at h
+    simp only [RustSem.Set.insert]
+    split
+    · simp
+    · split
+      · rename_i h2; exact absurd h2 h.1
+      · simp only [List.length_cons, ih h.2]
+
+theorem length_setOf (l : List Nat) (hn : l.Nodup) : (setOf l).length = l.length := by
+  induction l with
+  | nil => simp [setOf]
+  | cons x r ih =>
+    simp only [List.nodup_cons] at hn
+    show (RustSem.Set.insert (setOf r) x).length = _
+    rw [length_set_insert_new _ _ (fun h => hn.1 ((mem_setOf r x).mp h)), ih hn.2]; simp
+
 /-! ### arithmetic / bytes -/
 
 theorem varintLen_le (v : Nat) : varintLen v ≤ 8 := by
